@@ -124,10 +124,11 @@ impl Property for C05 {
         // drawn before the instance so that short tapes still vary the class
         let class = t.weighted(&[5, 4, 3, 3, 6]);
         let inc = t.coin();
+        let imask = t.u16();
         let mut gi = gen_instance(t, &cfg, ctx);
         let include_irrelevant = class != 1 && inc;
-        let mut state = gen_inst_state(t, &gi, regime, include_irrelevant);
-        if !include_irrelevant && !gi.irrelevant.is_empty() {
+        let mut state = if include_irrelevant { gen_inst_state(t, &gi, regime, true) } else { gen_inst_state_partial(t, &gi, regime, imask) };
+        if gi.irrelevant.iter().any(|i| !state.entries.contains_key(i)) {
             ctx.label("irrelevant-filled");
             ctx.nontrivial();
         }
